@@ -100,6 +100,13 @@ def queries(tier):
                     for b in _lens(k, 1):
                         lens = iter([a, b])
                         add(T, [(p[0], p[1], next(lens)) if isinstance(p, tuple) else p for p in pr])
+    # long skeletons: many segments / qualifiers around small holes
+    for T in ('String', 'Purl'):
+        ty = 't' if T == 'String' else 'golang'
+        add(T, ['pkg:%s/a/b/c/d/' % ty, ('hole', 'h', 2), '/f/n@1.2.3?b=1&d=2&f=3&h=4&', ('hole', 'g', 1), '=5&l=6#x/y/z'])
+        add(T, ['pkg:%s/n?b=1&d=2&f=3&h=4&j=5&l=6&' % ty, ('hole', 'h', 2), '=v'])
+        add(T, ['pkg:%s/n?' % ty, ('hole', 'h', 1), '=v&b=1&d=2&F=3&h=4&J=5&l=6&n=7'])
+        add(T, ['pkg:%s/n#a/b/./c/../d/' % ty, ('hole', 'h', 3), '/e//f'])
     # typed PURL: the seven types, holes in namespace / name / whole tail
     for ty in ('cargo', 'gem', 'golang', 'maven', 'npm', 'nuget', 'pypi'):
         for n in _lens(4 if thorough else 3, 1):
